@@ -7,6 +7,7 @@
    Everything semantic is extracted code; these files only parse and print. *)
 open Base
 open Suites
+type string = Stdlib.String.t
 
 let trivial_result (r : string) =
   r = "(ok T)" || r = "(ok F)" || r = "(err)" || r = "(panic)" || r = "(diverge)"
@@ -25,6 +26,11 @@ let () =
   let cases = ref 0 and mism = ref 0 and nontriv = ref 0 in
   let seen : (Digest.t, unit) Hashtbl.t = Hashtbl.create 100000 in
   let per_op : (string, int) Hashtbl.t = Hashtbl.create 32 in
+  let dist : (string, int) Hashtbl.t = Hashtbl.create 32 in
+  let class_of (r : string) =
+    if String.length r >= 6 && String.sub r 0 6 = "(ok (N" then "ok-node"
+    else if String.length r >= 4 && String.sub r 0 4 = "(ok " then "ok-other"
+    else if String.length r > 24 then String.sub r 0 24 else r in
   let samples = ref [] in
   let lineno = ref 0 in
   (try
@@ -47,6 +53,7 @@ let () =
             if print_mode then print_string (op ^ "\t" ^ args ^ "\t" ^ model ^ "\n")
             else begin
               Hashtbl.replace per_op op (1 + (try Hashtbl.find per_op op with Not_found -> 0));
+              (let k = op ^ ":" ^ class_of real in Hashtbl.replace dist k (1 + (try Hashtbl.find dist k with Not_found -> 0)));
               if model <> real then begin
                 incr mism;
                 let verdict =
@@ -59,7 +66,7 @@ let () =
                 let d = Digest.string (op ^ "\t" ^ args) in
                 if not (Hashtbl.mem seen d) then (Hashtbl.replace seen d (); incr nontriv)
               end;
-              if !cases <= 2 || (!cases land (!cases - 1) = 0 && List.length !samples < 12) then
+              if !cases <= 2 || (!cases land (!cases - 1) = 0 && List.length !samples < 24) then
                 samples := (op ^ " " ^ args ^ " => " ^ real) :: !samples
             end
         | _ -> ()
@@ -68,7 +75,8 @@ let () =
   with End_of_file -> ());
   if not print_mode then begin
     let ops = Hashtbl.fold (fun k v acc -> Printf.sprintf "\"%s\":%d" (json_escape k) v :: acc) per_op [] in
-    Printf.printf "SUMMARY\t{\"cases\":%d,\"mismatches\":%d,\"distinct_nontrivial\":%d,\"ops\":{%s},\"samples\":[%s]}\n"
-      !cases !mism !nontriv (String.concat "," (List.sort compare ops))
+    let ds = Hashtbl.fold (fun k v acc -> Printf.sprintf "\"%s\":%d" (json_escape k) v :: acc) dist [] in
+    Printf.printf "SUMMARY\t{\"cases\":%d,\"mismatches\":%d,\"distinct_nontrivial\":%d,\"ops\":{%s},\"dist\":{%s},\"samples\":[%s]}\n"
+      !cases !mism !nontriv (String.concat "," (List.sort compare ops)) (String.concat "," (List.sort compare ds))
       (String.concat "," (List.rev_map (fun s -> "\"" ^ json_escape s ^ "\"") !samples))
   end
